@@ -83,11 +83,16 @@ func runC08(e *core.Env) {
 		gr.Install(src, "proj/app", fmt.Sprintf("i%d", i))
 		imgs = append(imgs, gr)
 	}
+	// the layout already holds image 0 under the tag "pre" (as an earlier run left it): copying it there again
+	// finds everything in place and writes nothing
+	if err := imgs[0].InstallLayout(dir, "pre", true); err != nil {
+		panic(err)
+	}
 	rc := w.Client()
 	tags := []string{"a", "b", "c"}
 	nt := 1 + e.Choose("gen", 3, "tasks")
 	progs := make([][]c08Op, nt)
-	kinds := []string{"copy", "copy", "copy-referrers", "copy-sparse", "tag-delete", "manifest-delete", "push-referrer", "delete-referrer", "close", "close"}
+	kinds := []string{"copy", "copy", "copy-present", "copy-referrers", "copy-sparse", "tag-delete", "manifest-delete", "push-referrer", "delete-referrer", "close", "close"}
 	for t := range progs {
 		for i, n := 0, 2+e.Choose("gen", 4, "ops"); i < n; i++ {
 			op := c08Op{Kind: kinds[e.Choose("gen", len(kinds), "kind")], Img: e.Choose("gen", len(imgs), "img"), Tag: tags[e.Choose("gen", len(tags), "tag")], Arg: e.Choose("gen", 2, "arg")}
@@ -167,6 +172,12 @@ func runC08(e *core.Env) {
 			err = rc.ImageCopy(ctx, mustRef(fmt.Sprintf("src.test/proj/app:i%d", op.Img)), mustRef(base+":"+op.Tag), opts...)
 			delete(active, me)
 			e.Probe("copy")
+		case "copy-present":
+			// a copy that finds its target up to date and writes nothing
+			active[me] = false
+			err = rc.ImageCopy(ctx, mustRef("src.test/proj/app:i0"), mustRef(base+":pre"))
+			delete(active, me)
+			e.Probe("copy-of-present-image")
 		case "tag-delete":
 			err = rc.TagDelete(ctx, mustRef(base+":"+op.Tag))
 		case "manifest-delete":
